@@ -18,6 +18,7 @@ type syncHeaders struct {
 	service.Headers
 	tipHeight int32
 	tipHash   chainhash.Hash
+	older     chainhash.Hash // second locator entry (an ancestor of the tip)
 	current   bool
 	known     map[chainhash.Hash]int32
 }
@@ -27,8 +28,15 @@ func (h *syncHeaders) GetTip() *domains.BlockHeader {
 	return &domains.BlockHeader{Height: h.tipHeight, Hash: h.tipHash}
 }
 func (h *syncHeaders) LatestHeaderLocator() domains.BlockLocator {
-	t := h.tipHash // a copy, as the real service returns: the peer keeps the pointer for its duplicate filter
-	return domains.BlockLocator{&t}
+	// copies, as the real service returns (the peer keeps the pointer for its duplicate filter):
+	// the tip first, then an older header - a request must carry the whole locator, not just the tip
+	t, o := h.tipHash, h.older
+	return domains.BlockLocator{&t, &o}
+}
+
+// fullLocator: the request carries exactly the service's locator for the given tip.
+func fullLocator(gh *wire.MsgGetHeaders, tip, older chainhash.Hash) bool {
+	return len(gh.BlockLocatorHashes) == 2 && vh.HashEq(*gh.BlockLocatorHashes[0], tip) && vh.HashEq(*gh.BlockLocatorHashes[1], older)
 }
 func (h *syncHeaders) CountHeaders() int { return int(h.tipHeight) + 1 }
 func (h *syncHeaders) IsCurrent() bool   { return h.current }
@@ -43,7 +51,7 @@ func (h *syncHeaders) GetHeightByHash(x *chainhash.Hash) (int32, error) {
 // checkpoints enabled with n ascending arbitrary checkpoints, or disabled; arbitrary tip.
 func c06Manager(n int, disable bool) (*SyncManager, *syncHeaders, *chainsStub, []chaincfg.Checkpoint) {
 	cps := checkpoints(n)
-	hs := &syncHeaders{tipHeight: vh.NondetI32("tipHeight"), tipHash: vh.NondetHash("tipHash"), current: vh.NondetBool("current")}
+	hs := &syncHeaders{tipHeight: vh.NondetI32("tipHeight"), tipHash: vh.NondetHash("tipHash"), older: vh.NondetHash("olderHash"), current: vh.NondetBool("current")}
 	vh.Assume(hs.tipHeight >= 0)
 	for i := range cps {
 		// the zero hash is the "no stop" value of getheaders, not a block
@@ -108,7 +116,7 @@ func HarnessStartSync(m int, n int, disabled int) {
 		vh.Assert("C06/exactly-one-initial-request", len(sent) == 1)
 		if len(sent) == 1 {
 			gh, ok := sent[0].(*wire.MsgGetHeaders)
-			vh.Assert("C06/initial-request-from-our-tip-to-next-checkpoint", ok && len(gh.BlockLocatorHashes) == 1 && vh.HashEq(*gh.BlockLocatorHashes[0], hs.tipHash) && vh.HashEq(gh.HashStop, stop))
+			vh.Assert("C06/initial-request-from-our-tip-to-next-checkpoint", ok && fullLocator(gh, hs.tipHash, hs.older) && vh.HashEq(gh.HashStop, stop))
 		}
 	}
 	// the sync peer answers with one header that extends our longest chain (not at a checkpoint height)
@@ -129,7 +137,7 @@ func HarnessStartSync(m int, n int, disabled int) {
 	vh.Assert("C06/answer-with-progress-is-followed-by-one-request", len(sent) == 1)
 	if len(sent) == 1 {
 		gh, ok := sent[0].(*wire.MsgGetHeaders)
-		vh.Assert("C06/follow-up-request-from-new-tip-to-next-checkpoint", ok && len(gh.BlockLocatorHashes) == 1 && vh.HashEq(*gh.BlockLocatorHashes[0], nh.Hash) &&
+		vh.Assert("C06/follow-up-request-from-new-tip-to-next-checkpoint", ok && fullLocator(gh, nh.Hash, hs.older) &&
 			vh.HashEq(gh.HashStop, expectedStop(cps, disable, nh.Height)))
 	}
 	vh.Reach("synced-one-step")
@@ -169,7 +177,7 @@ func HarnessInvAfterSync(n int, disabled int) {
 	vh.Assert("C06/announced-unknown-block-is-requested", len(sent) == 1)
 	if len(sent) == 1 {
 		gh, ok := sent[0].(*wire.MsgGetHeaders)
-		vh.Assert("C06/announced-unknown-block-is-requested", ok && len(gh.BlockLocatorHashes) == 1 && vh.HashEq(*gh.BlockLocatorHashes[0], hs.tipHash))
+		vh.Assert("C06/announced-unknown-block-is-requested", ok && fullLocator(gh, hs.tipHash, hs.older))
 	}
 	vh.Reach("end")
 }
